@@ -1,9 +1,16 @@
 package main
 
 import (
+	"flag"
 	"fmt"
 	"os"
+	"reflect"
+	"sort"
+	"strings"
+	"time"
 )
+
+var extraWorkerEnv []string
 
 func cmdSelftest(args []string) int {
 	if len(args) < 1 || args[0] != "determinism" {
@@ -12,8 +19,126 @@ func cmdSelftest(args []string) int {
 	return selftestDeterminism(args[1:])
 }
 
-// placeholder until the determinism self-test is written (see selftest_det.go)
-var selftestDeterminism = func(args []string) int {
-	fmt.Fprintln(os.Stderr, "not built yet")
-	return 2
+// selftestDeterminism runs a sample of every property's quick-tier jobs several times in fresh
+// processes at different GOMAXPROCS values and requires byte-identical event-log fingerprints
+// (the hash covers every fired event with its virtual time and payload note) run by run.
+func selftestDeterminism(args []string) int {
+	fs := flag.NewFlagSet("determinism", flag.ExitOnError)
+	props := fs.String("props", "", "comma separated (default: all)")
+	perProp := fs.Int("jobs", 6, "jobs per property")
+	count := fs.Int("count", 40, "seeds per job")
+	repeats := fs.Int("repeats", 1, "extra same-GOMAXPROCS repetitions")
+	fs.Parse(args)
+	bin, hash, err := prepare(repoRoot, verifRoot, false)
+	if err != nil {
+		fmt.Fprintln(os.Stderr, "simrun: "+err.Error())
+		return 2
+	}
+	fmt.Printf("determinism self-test on tree %s\n", hash)
+	var names []string
+	for p := range plans {
+		names = append(names, p)
+	}
+	sort.Strings(names)
+	if *props != "" {
+		names = strings.Split(*props, ",")
+	}
+	procs := []string{"1", "4", "16"}
+	for i := 0; i < *repeats; i++ {
+		procs = append(procs, "16", "2")
+	}
+	bad := 0
+	for _, p := range names {
+		mk := plans[p]
+		if mk == nil {
+			fmt.Fprintf(os.Stderr, "no plan for %s\n", p)
+			return 2
+		}
+		plan := mk("quick", 4242)
+		type sample struct {
+			cfg JobCfg
+			job *Job
+		}
+		var samples []sample
+		for _, ph := range plan.Phases {
+			if ph.Race {
+				continue
+			}
+			step := len(ph.Groups) / *perProp
+			if step < 1 {
+				step = 1
+			}
+			for gi := 0; gi < len(ph.Groups) && len(samples) < *perProp; gi += step {
+				g := ph.Groups[gi]
+				if len(g.Jobs) == 0 {
+					continue
+				}
+				j := *g.Jobs[0]
+				j.Prop = p
+				j.ID = len(samples) + 1
+				if j.Params["enum"] == 1 {
+					pp := map[string]int{}
+					for k, v := range j.Params {
+						pp[k] = v
+					}
+					pp["nshards"] = pp["nshards"] * 40
+					j.Params = pp
+				} else if j.Count > *count {
+					j.Count = *count
+				}
+				samples = append(samples, sample{g.Cfg, &j})
+			}
+		}
+		runs, diverged := 0, 0
+		for _, s := range samples {
+			var ref []uint64
+			var refRes *Result
+			for pi, gmp := range procs {
+				extraWorkerEnv = []string{"GOMAXPROCS=" + gmp}
+				w, err := startWorker(bin, s.cfg.Text, false)
+				if err != nil {
+					fmt.Fprintln(os.Stderr, "simrun: "+err.Error())
+					return 2
+				}
+				j := *s.job
+				j.Cfg = s.cfg
+				j.Cfg.Text = ""
+				res, err := w.run(&j, 5*time.Minute)
+				w.stop()
+				if err != nil {
+					fmt.Fprintf(os.Stderr, "simrun: %s job died in determinism test: %v\n", p, err)
+					return 2
+				}
+				if pi == 0 {
+					ref, refRes = res.LogFPs, res
+					runs += res.Runs
+					continue
+				}
+				if !reflect.DeepEqual(ref, res.LogFPs) || len(refRes.Violations) != len(res.Violations) {
+					diverged++
+					first := -1
+					for k := range ref {
+						if k >= len(res.LogFPs) || ref[k] != res.LogFPs[k] {
+							first = k
+							break
+						}
+					}
+					fmt.Printf("DIVERGENCE property=%s scen=%s seed=%d GOMAXPROCS=%s vs %s: first differing run index %d (seed %d)\n", p, s.job.Scen, s.job.Seed, procs[0], gmp, first, s.job.Seed+uint64(first))
+				}
+			}
+		}
+		extraWorkerEnv = nil
+		status := "identical"
+		if diverged > 0 {
+			status = fmt.Sprintf("%d DIVERGENT job executions", diverged)
+			bad++
+		}
+		fmt.Printf("  %-4s %2d jobs, %5d runs x %d process configurations (GOMAXPROCS %s): %s\n", p, len(samples), runs, len(procs), strings.Join(procs, "/"), status)
+	}
+	if bad > 0 {
+		fmt.Println("determinism self-test FAILED")
+		return 2
+	}
+	fmt.Println("determinism self-test passed")
+	return 0
 }
